@@ -130,6 +130,12 @@ class Driver:
         # augmented assignment `m.weights /= s` amounts to: getter, in-place operation on that object, setter)
         self.n += 1
         style = self.n % 3
+        # reading a public derived quantity between two operations changes nothing (one of them alone, so that they
+        # are not always refreshed together)
+        if self.n % 4 == 1:
+            _ = m.g_norms
+        elif self.n % 4 == 3:
+            _ = m.log_weights
         if name == "SetW":
             if style == 0:
                 m.weights = vec(op["w"])
